@@ -62,8 +62,11 @@ class DBusProperty:
             instance._dbusProperties = {}
 
         if self.iprop is None:
-            # Force object to set it
-            instance._getProperty('', self.pname)
+            # Force object to set it. Every class of the hierarchy must be
+            # cached: a lookup by name alone stops at the first property
+            # called pname, which may be declared on another interface
+            for _ in instance._iterIFaceCaches():
+                pass
 
         if self.key is None:
             self.key = self.interface + self.pname
